@@ -57,6 +57,8 @@ pub enum Distractor {
     GeneHeaderLong(usize),
     /// a `#` comment line of this many bytes in the middle of phenotype.hpoa
     HpoaCommentLong(usize),
+    /// every is_a line carries an OBO trailing modifier: `is_a: HP:0000118 {source="PMID:1"} ! name`
+    IsATrailingModifier,
 }
 
 #[derive(Clone, Debug, Default)]
@@ -129,7 +131,11 @@ pub fn render(f: &Facts, o: &JaxOpts) -> Rendered {
         for &(c, p) in f.edges.iter().filter(|e| e.0 == t.id) {
             let pname = f.terms.iter().find(|x| x.id == p).map(|x| x.name.as_str()).unwrap_or("unknown");
             let _ = c;
-            s.push_str(&format!("is_a: {} ! {}\n", hp(p), pname));
+            if o.has(&Distractor::IsATrailingModifier) {
+                s.push_str(&format!("is_a: {} {{source=\"PMID:{}\"}} ! {}\n", hp(p), 1000 + p % 97, pname));
+            } else {
+                s.push_str(&format!("is_a: {} ! {}\n", hp(p), pname));
+            }
             if o.has(&Distractor::TagsBetweenIsA) {
                 s.push_str("xref: SNOMEDCT_US:123456\n");
             }
